@@ -153,8 +153,13 @@ SPECS["C12"] = ("""property C12: a store call that fails changes nothing observa
    "forall st e st' x, a_store st e = (st', Err x) -> st' = st", "a_store_err_noop", ""),
   ], "")
 
-SPECS["C18"] = ("""property C18: explicit removal and vanish remove exactly their targets (abstract store).""",
-  DBIMP + "\nFrom Pocket Require Import DbIdInv DbIndexInv KeyOrder DbAddr DbQuerySound DbQueryComplete DbDeletion DbForeign.", [
+SPECS["C18"] = ("""property C18: explicit removal and vanish remove exactly their targets.
+   Proved on the abstract store (remove/vanish exact, resubmission, ephemeral events) and on the CONCRETE store:
+   remove_event takes exactly its target out of the id index (every other id, markers, extra tables, log untouched);
+   vanish, for every reachable state with fewer than 2^32-1 events, makes unretrievable exactly the events the
+   abstract store's vanishes predicate names (author = pk, or kind 1059 with a p tag whose first value is hex pk) -
+   through both of its queries, whichever index serves them (DbVanish.v on top of DbQueryNewest.v).""",
+  DBIMP + "\nFrom Pocket Require Import DbIdInv DbIndexInv KeyOrder DbAddr DbQuerySound DbQueryComplete DbDeletion DbForeign DbQueryNewest DbVanish.", [
   ("C18_remove_exact",
    "forall st id x, (In x (live (a_remove st id)) <-> In x (live st) /\\ e_id x <> id) /\\\n    del_ids (a_remove st id) = del_ids st /\\ del_addrs (a_remove st id) = del_addrs st /\\ a_extra (a_remove st id) = a_extra st",
    "remove_exact", "present, absent or already removed target"),
@@ -170,6 +175,12 @@ SPECS["C18"] = ("""property C18: explicit removal and vanish remove exactly thei
   ("C18_concrete_remove_exact",
    "forall s id s', id_inv s -> remove_event s id = (s', Ok tt) ->\n    get_event_by_id s' id = Ok None /\\ has_event s' id = false /\\\n    (forall id', id' <> id -> get_event_by_id s' id' = get_event_by_id s id' /\\ has_event s' id' = has_event s id') /\\\n    t_delids (committed s') = t_delids (committed s) /\\ t_naddr (committed s') = t_naddr (committed s) /\\\n    t_extra (committed s') = t_extra (committed s) /\\ log s' = log s",
    "remove_event_exact_concrete", "the CONCRETE store (id_inv holds in every reachable state): exactly the target leaves the id index; every other id, all markers, extra tables and the log are untouched"),
+  ("C18_concrete_vanish_exact",
+   "forall ops names pk s', ops_wfe ops -> let s := c_run ops (db_init names) in\n    length pk = 32%nat -> len (t_i (committed s)) < 4294967295 -> vanish s pk = (s', Ok tt) ->\n    (forall x, get_event_by_id s (e_id x) = Ok (Some x) ->\n       get_event_by_id s' (e_id x) = if doomed pk x then Ok None else Ok (Some x)) /\\\n    (forall id, get_event_by_id s id = Ok None -> get_event_by_id s' id = Ok None) /\\\n    unchanged_rest s s'",
+   "vanish_exact_reachable", "the CONCRETE store, every reachable state with fewer than 2^32-1 events (the limit vanish passes to its queries): exactly the doomed events become unretrievable, every other event is still returned by id, markers / extra tables / log untouched"),
+  ("C18_doomed_is_vanishes",
+   "forall pk x, e_created x <= U64MAX -> doomed pk x = vanishes pk x",
+   "doomed_vanishes", "the two filters vanish queries with denote the abstract predicate: author = pk, or kind 1059 with a tag [p; hex pk; ...]"),
   ], """Example C18_example :
   let pk := repeat 2 32 in
   let gw := mkE (repeat 1 32) (repeat 4 32) (repeat 3 64) 1059 5 [[[112]; write_hex pk]] [] in
@@ -308,9 +319,11 @@ SPECS["C17"] = ("""property C17: every access path agrees and index accounting n
    per DISTINCT key - the count formula the harness checks after every step.  THE GLOBAL INVARIANT
    (DbIndexInv.v): in every reachable state of the concrete store each of the six secondary tables is
    exactly the image of the id index (no leaked entry, no missing key, one entry per key), and the
-   single-key tables have exactly one entry per retrievable event.  Still decided only per run: that the
-   distinct-(letter, padded value) count formula of the tag tables matches the code, and rebuild.""",
-  DBIMP.replace("DbProofs.", "DbProofs TableProofs DbIdInv DbIndexInv."), [
+   single-key tables have exactly one entry per retrievable event.  ALL QUERY PATHS AGREE WITH THE ID INDEX
+   (DbQueryNewest.v / DbQueryComplete.v): whichever of the seven plans serves a filter, an event is in the
+   untruncated answer exactly when the lookup by its id returns it and it matches.  Still decided only per
+   run: that the distinct-(letter, padded value) count formula of the tag tables matches the code.""",
+  DBIMP.replace("DbProofs.", "DbProofs TableProofs DbIdInv DbIndexInv.") + "\nFrom Pocket Require Import DbQuerySound KeyOrder DbAddr DbQueryComplete DbQueryNewest.", [
   ("C17_range_scan_exact_partial",
    "forall t lo hi k v, In (k, v) (t_range t lo hi) <-> In (k, v) t /\\ lex_lt k lo = false /\\ lex_lt hi k = false",
    "t_range_spec", ""),
@@ -336,6 +349,9 @@ SPECS["C17"] = ("""property C17: every access path agrees and index accounting n
   ("C17_single_key_counts_agree",
    "forall ops names, ops_wf ops -> let tb := committed (c_run ops (db_init names)) in\n    len (t_ci tb) = len (t_i tb) /\\ len (t_ac tb) = len (t_i tb) /\\ len (t_akc tb) = len (t_i tb)",
    "index_counts_agree", "the counter equalities the harness checks after every operation"),
+  ("C17_query_paths_agree_with_id_index",
+   "forall ops names f now allow_scraping allow_limit allow_seconds out red,\n    ops_wfe ops -> let s := c_run ops (db_init names) in\n    filter_ok f -> limit_exceeds_store s f ->\n    find_events s f all_match now allow_scraping allow_limit allow_seconds = Ok (out, red) ->\n    forall e, In e out <-> (get_event_by_id s (e_id e) = Ok (Some e) /\\ spec_matches f e = true)",
+   "query_paths_agree_with_id_index", "every reachable state, every filter (32-byte authors, u16 kinds, one-letter tag names) whose limit does not truncate, whichever of the seven plans serves it (ids / author+kind / author+tag / kind+tag / tag / author / time window): the answer is exactly the events the id lookup returns that match - no access path serves an event another path denies"),
   ("C17_id_path_agrees_with_offset_path",
    "forall ops names id, let s := c_run ops (db_init names) in\n    (get_event_by_id s id = Ok None /\\ has_event s id = false) \\/\n    (exists e off, get_event_by_id s id = Ok (Some e) /\\ e_id e = id /\\ has_event s id = true /\\\n                   get_event_by_offset s off = Ok e /\\ t_get (t_i (committed s)) id = Some off)",
    "by_id_never_fails", "every reachable concrete state: has_event, get_event_by_id and the offset path agree; the id index holds one entry per id (no leak of dangling entries)"),
